@@ -214,7 +214,7 @@ def set_union_merge_many(list arrays):
     cdef uint32[:] values = varr
     larr = numpy.array([arr.shape[0] for arr in value_arrays], dtype=int)
     cdef long[:] lengths = larr
-    parr = numpy.concatenate([[0], lengths[:len(larr) - 1]])
+    parr = numpy.concatenate([[0], numpy.cumsum(larr)[:-1]])
     cdef long[:] pointers = parr
     limarr = parr + larr
     cdef long[:] limits = limarr
